@@ -6,11 +6,13 @@ import (
 	"fmt"
 	"os"
 	"sort"
+	"regexp"
 	"strconv"
 	"strings"
 	"time"
 
 	"github.com/koykov/dyntpl"
+	"github.com/koykov/inspector/testobj"
 )
 
 // Correspondence runner shared by the interpreter-level properties: generate (template, data),
@@ -163,6 +165,59 @@ func genInterpCase(id int, rng *RNG, prof *Profile) *interpCase {
 			g.tag("scenario:exit-in-included-range-loop")
 		}
 	}
+	addSub := func(sub []*Ast) (string, bool) {
+		src := printNodes(sub)
+		key, dump, o := parseDump([]byte(src), false)
+		if o.ErrClass() != "OK" {
+			return "", false
+		}
+		ic.incs = append(ic.incs, sub)
+		g.incs = append(g.incs, key)
+		ic.incIdx = append(ic.incIdx, len(ic.incs)-1)
+		vc.Reg[key] = dump
+		vc.RegKeys = append(vc.RegKeys, key)
+		vc.Meta["inc:"+key] = src
+		return key, true
+	}
+	if prof.Includes && prof.BreakN && rng.Chance(20) {
+		// an include rendered while a break depth is pending for the enclosing loops: after
+		// break N in an inner loop (the rest of the outer body is rendered), or after lazybreak N
+		// in the same iteration
+		if key, ok := addSub([]*Ast{{K: "text", Text: g.marker()}}); ok {
+			ov, iv := g.newVar("i"), g.newVar("i")
+			kw := []string{"break", "lazybreak"}[rng.Intn(2)]
+			fire := fmt.Sprint(rng.Intn(2))
+			ctl := &Ast{K: kw, N: 2 + rng.Intn(2)}
+			inner := &Ast{K: "cloop", Var: iv, Init: "0", InitLit: true, Op: "<", Lim: "3", LimLit: true, Step: "++",
+				Body: []*Ast{{K: "text", Text: g.marker()}, {K: "if", Cond: &ACond{L: iv, Op: "==", R: fire, RLit: true}, Then: []*Ast{ctl}}, {K: "print", Path: iv}}}
+			if kw == "lazybreak" && rng.Bool() {
+				inner.Body = append(inner.Body, &Ast{K: "include", IncKw: "include", Names: []string{key}})
+			}
+			outer := &Ast{K: "cloop", Var: ov, Init: "0", InitLit: true, Op: "<", Lim: "3", LimLit: true, Step: "++",
+				Body: []*Ast{{K: "print", Path: ov}, inner, {K: "include", IncKw: "include", Names: []string{key}}, {K: "text", Text: g.marker()}}}
+			wrap := &Ast{K: "cloop", Var: g.newVar("i"), Init: "0", InitLit: true, Op: "<", Lim: "2", LimLit: true, Step: "++", Body: []*Ast{outer, {K: "text", Text: g.marker()}}}
+			ic.ast = append(ic.ast, wrap, &Ast{K: "text", Text: g.marker()})
+			if g.budget < 12 {
+				g.budget = 12
+			}
+			g.tag("scenario:include-while-break-depth-pending")
+		}
+	}
+	if prof.Includes && rng.Chance(12) {
+		// a counter loop inside an included template, then a counter loop of the including
+		// template that reads the included loop's variable during and after its own run
+		iv, jv := g.newVar("i"), g.newVar("i")
+		sub := []*Ast{{K: "cloop", Var: iv, Init: "0", InitLit: true, Op: "<", Lim: fmt.Sprint(2 + rng.Intn(2)), LimLit: true, Step: "++", Body: []*Ast{{K: "print", Path: iv}}}}
+		if key, ok := addSub(sub); ok {
+			l2 := &Ast{K: "cloop", Var: jv, Init: "0", InitLit: true, Op: "<", Lim: "2", LimLit: true, Step: "++", Sep: ";", SepKw: "sep",
+				Body: []*Ast{{K: "print", Path: iv}, {K: "print", Path: jv}}}
+			ic.ast = append(ic.ast, &Ast{K: "include", IncKw: "include", Names: []string{key}}, &Ast{K: "text", Text: g.marker()}, l2, &Ast{K: "text", Text: g.marker()}, &Ast{K: "print", Path: iv})
+			if g.budget < 8 {
+				g.budget = 8
+			}
+			g.tag("scenario:included-loop-variable-read-by-later-loop")
+		}
+	}
 	vc.KeepFmt = prof.KeepFmt && rng.Bool()
 	if !vc.KeepFmt {
 		trimTail(ic.ast)
@@ -301,6 +356,43 @@ func runInterp(o *Options, prop string, prof *Profile, quickN, thoroughN int, co
 					What: fmt.Sprintf("template %q renders %q err=%q %s when its variables overwrite the ones of another data set (%s), and %q err=%q on a new context", vc.Src, ow.Out, ow.Err, firstLine(ow.Panic), pd.Slots(), f.Out, f.Err),
 					Replay: map[string]any{"template": vc.Src, "keep_fmt": vc.KeepFmt, "data_slots": vc.Data.Slots(), "previous_data_slots": pd.Slots(), "includes": vc.Meta,
 						"how": "NewCtx; set the previous data; set this data (same names, other kinds and values); render", "observed": string(ow.Out), "observed_err": ow.Err, "new_context": string(f.Out), "new_context_err": f.Err}})
+			}
+		}
+		// a context whose slots all held one other kind of value (counters, byte buffers, inspected
+		// objects) and was reset: the recycled slots must show nothing of it
+		if !vc.Runs[0].Obs.Hang {
+			f := vc.Runs[0].Obs
+			cd := vc.Data
+			nslots := len(cd.Statics) + 3
+			for _, adv := range []string{"counters", "bytes", "objects"} {
+				adv := adv
+				rc := guarded(5*time.Second, func() ([]byte, error) {
+					ctx := dyntpl.NewCtx()
+					for k := 0; k < nslots; k++ {
+						name := fmt.Sprintf("zz%d", k)
+						switch adv {
+						case "counters":
+							ctx.SetCounter(name, 7000+k)
+						case "bytes":
+							ctx.SetBytes(name, []byte(fmt.Sprintf("ZZ%d", k)))
+						default:
+							ctx.Set(name, &testobj.TestObject{Id: fmt.Sprintf("OBJ%d", k)}, tobjIns)
+						}
+					}
+					ctx.Reset()
+					cd.Apply(ctx)
+					return dyntpl.Render(key, ctx)
+				})
+				harnessLog.take()
+				res.Hist("recycled:" + adv)
+				if !rc.Hang && (string(rc.Out) != string(f.Out) || rc.Err != f.Err || (rc.Panic != "") != (f.Panic != "")) {
+					res.OracleFails++
+					res.AddViolation(&Violation{Kind: "failing-input", Class: "recycled:differs-from-new",
+						What: fmt.Sprintf("template %q renders %q err=%q %s on a context whose slots all held %s before a Reset, and %q err=%q on a new context", vc.Src, rc.Out, rc.Err, firstLine(rc.Panic), adv, f.Out, f.Err),
+						Replay: map[string]any{"template": vc.Src, "keep_fmt": vc.KeepFmt, "data_slots": vc.Data.Slots(), "includes": vc.Meta,
+							"how": "NewCtx; fill " + fmt.Sprint(nslots) + " variables zz0.. with " + adv + "; Reset; set this data; render", "observed": string(rc.Out), "observed_err": rc.Err, "new_context": string(f.Out), "new_context_err": f.Err}})
+					break
+				}
 			}
 		}
 		prevData = vc.Data
@@ -481,6 +573,16 @@ func loadInterpCorpus(o *Options, prop string) []*interpCase {
 		for i := int64(-2); i < 40; i++ {
 			vc.Flits[fmt.Sprint(i)] = float64(i)
 		}
+		// and every number written in the template or an included one
+		for _, src := range append([]string{c.Template}, sortedStrVals(c.Includes)...) {
+			for _, m := range reNumLit.FindAllString(src, -1) {
+				if f, err := strconv.ParseFloat(m, 64); err == nil {
+					if _, ok := vc.Flits[m]; !ok {
+						vc.Flits[m] = f
+					}
+				}
+			}
+		}
 		for _, k := range sortedStrKeys(c.Includes) {
 			tree, err := dyntpl.Parse([]byte(c.Includes[k]), false)
 			if err != nil {
@@ -493,6 +595,16 @@ func loadInterpCorpus(o *Options, prop string) []*interpCase {
 		out = append(out, ic)
 	}
 	return out
+}
+
+var reNumLit = regexp.MustCompile(`-?\d+(\.\d+)?`)
+
+func sortedStrVals(m map[string]string) []string {
+	var vs []string
+	for _, k := range sortedStrKeys(m) {
+		vs = append(vs, m[k])
+	}
+	return vs
 }
 
 func sortedStrKeys(m map[string]string) []string {
